@@ -191,6 +191,11 @@ class Ctx:
     # -- scratch -----------------------------------------------------------
     @property
     def scratch(self) -> Scratch:
+        # a child context living in the same process as its parent shares the parent's scratch directory (and never
+        # removes it); in a forked worker the pid differs and the child gets - and later removes - its own
+        par = getattr(self, "_parent", None)
+        if par is not None and getattr(self, "_parent_pid", None) == os.getpid():
+            return par.scratch
         if self._scratch is None or self._scratch_pid != os.getpid():
             self._scratch = Scratch(f"vf-{self.prop}")
             self._scratch_pid = os.getpid()
@@ -253,6 +258,8 @@ class Ctx:
         c = Ctx(self.prop, self.tier, self.seed, shard)
         c.known_open = self.known_open
         c.auto_twins = self.auto_twins
+        c._parent = self
+        c._parent_pid = os.getpid()
         return c
 
     def export(self):
@@ -356,6 +363,7 @@ def _worker(parent, fn, items, k, w):
         out = ("err", traceback.format_exc())
     finally:
         ctx.cleanup()
+        parent.cleanup()  # this process's copy of the parent context owns the scratch directory created here
     try:
         w.send_bytes(pickle.dumps(out))
     except Exception:
